@@ -54,6 +54,10 @@ def r2(run):
             vals = [strip(e2) for (rb, e2, raw) in cb.return_defs() if rb in reach]
             run.ob("%s|filter-drops-expired" % C.READ_SYNC, bool(vals) and all(q.bool_under(v, cond, True) is False for v in vals), cb.sp,
                    "on the expired edge the filter returns false (%s)" % [fmt(v) for v in vals], reason="expired-frame-returned")
+            # ... and ONLY expired frames are dropped: every other path keeps the frame
+            keep = [strip(e2) for (rb, e2, raw) in cb.return_defs() if rb == 0 or q.reaches(cb, 0, rb, removed_edges=t_edges)]
+            run.ob("%s|filter-keeps-live" % C.READ_SYNC, bool(keep) and all(q.bool_under(v, cond, False) is True for v in keep), cb.sp,
+                   "on every path where the frame is not expired the filter returns true (%s)" % [fmt(v) for v in keep], reason="live-frame-dropped")
 
 
 def history_loop(run):
